@@ -19,7 +19,8 @@ def nested(X, cells):
         col = []
         for inst in X:
             v = np.array([np.nan if x == MISS else float(x) for x in inst[c]])
-            col.append(pd.Series(v) if cells == "series" else v)
+            # "series_off": cells whose own time index does not start at 0 (positions, not labels, are what counts)
+            col.append(pd.Series(v) if cells == "series" else pd.Series(v, index=np.arange(2, 2 + len(v))) if cells == "series_off" else v)
         cols["c%d" % c] = col
     return pd.DataFrame(cols)
 
@@ -36,7 +37,7 @@ def frame_out(df):
 def observe(case, variant=0):
     warnings.filterwarnings("ignore")
     op, p, X = case["op"], case["p"], case["X"]
-    cells = "series" if variant % 2 == 0 else "array"
+    cells = ["series", "array", "series_off"][variant % 3]
 
     def mk(cls, params, other):
         # every fifth case: built with other parameters and re-parameterised with set_params
@@ -114,6 +115,11 @@ def observe(case, variant=0):
         return {"crash": type(e).__name__ + ": " + str(e)[:140] + " @ " + traceback.format_exc().splitlines()[-3].strip()[:100]}
 
 
+def value_range(x):
+    """A feature function without an `axis` argument (applied series by series): max - min."""
+    return float(np.max(x) - np.min(x))
+
+
 def observe_rife(X, n_intervals, seed, cells):
     """Random-interval feature extractor: the intervals are read from the fitted object, the features are
     judged by the specification (mean, std through its square, least-squares slope)."""
@@ -121,19 +127,19 @@ def observe_rife(X, n_intervals, seed, cells):
     from sktime.utils.slope_and_trend import _slope
     warnings.filterwarnings("ignore")
     Xn = nested(X, cells)
-    tr = RandomIntervalFeatureExtractor(n_intervals=n_intervals, random_state=seed, features=[np.mean, np.std, _slope])
+    tr = RandomIntervalFeatureExtractor(n_intervals=n_intervals, random_state=seed, features=[np.mean, np.std, _slope, value_range])
     out = tr.fit(Xn).transform(Xn)
     iv = [[int(a), int(b)] for a, b in tr.intervals_]
     a = np.asarray(out, dtype=float)
     k = len(iv)
     # documented labels <start>_<end>_<function>, feature-major like the values
-    want = ["%d_%d_%s" % (a_, b_, f.__name__) for f in (np.mean, np.std, _slope) for a_, b_ in iv]
+    want = ["%d_%d_%s" % (a_, b_, f.__name__) for f in (np.mean, np.std, _slope, value_range) for a_, b_ in iv]
     if [str(c) for c in out.columns] != want:
         raise AssertionError("column labels %s do not name the columns' contents %s" % (list(out.columns)[:6], want[:6]))
     rows = []
     for row in a:
         cell = [rational(float(v)) or [] for v in row[:k]] + [rational(float(v) ** 2) or [] for v in row[k:2 * k]] + \
-               [rational(float(v)) or [] for v in row[2 * k:]]
+               [rational(float(v)) or [] for v in row[2 * k:3 * k]] + [rational(float(v)) or [] for v in row[3 * k:]]
         rows.append([cell])
     return iv, rows
 
